@@ -92,7 +92,7 @@ func execCase(spec *PropSpec, seed uint64, cfg Config, plan Plan, noKnown bool) 
 	r = NewRun(spec.ID, seed, cfg, plan, spec.Monitors())
 	r.NoKnown = noKnown
 	r.Tier = curTier
-	r.NoPanicGuard = spec.PanicsAreViolations
+	r.NoPanicGuard = spec.PanicsAreViolations || os.Getenv("EXOSIM_PANICS_ARE_VIOLATIONS") != ""
 	defer func() {
 		if rec := recover(); rec != nil {
 			// a panic in the harness itself (not inside a guarded ABCI call)
